@@ -9,6 +9,7 @@ import GE.Model.TagGen
 import GE.Model.Group
 import GE.Model.PathAnalysis
 import GE.Model.BindingMap
+import GE.Model.CssIO
 /-!
 Model driver: one request per line (`op TAB field…`), one answer line per request.
 Unknown ops answer `bad-op` (never defaulted).
@@ -44,6 +45,8 @@ def parseCond (f : String) : Option GE.TagGen.CondItem :=
     | some se => (GE.exprOfSExp se).map .dyn
     | none => none
   else none
+
+def optStr (f : String) : Option String := if f.startsWith "=" then some (f.drop 1).toString else none
 
 def step (fs : List String) : String :=
   match fs with
@@ -83,6 +86,15 @@ def step (fs : List String) : String :=
       let sc := parseScopes scopes
       let items := (GE.TagGen.prepareAll sc cs 0).1
       esc (GE.Gen.spellStmts (GE.TagGen.selStmts items)) ++ "\t" ++ esc (GE.Gen.spellAll (GE.TagGen.selToks items 0))
+  | ["css", cp, sign, ratio, isign, host, hostIs, tree] =>
+    match GE.Css.parseTree tree, ratio.toNat? with
+    | some ts, some rb =>
+      let opts : GE.Css.Opts := ⟨optStr cp, optStr sign, rb, optStr isign, host == "1", optStr hostIs⟩
+      let st := GE.Css.transform opts ts
+      esc (GE.Css.sinkStr st.normal) ++ "\t" ++ esc (GE.Css.sinkStr st.low) ++ "\t" ++
+        esc (String.intercalate " " (st.warnings.map GE.Css.warnStr)) ++ "\t" ++
+        esc (GE.Css.mapStr st.normal) ++ "\t" ++ esc (GE.Css.mapStr st.low)
+    | _, _ => "bad-tree"
   | "bmc" :: ops =>
     let parsed : List GE.BM.Op := ops.filterMap fun o =>
       if o == "*" then some .disableAll
